@@ -193,7 +193,7 @@ func c06Pair(w *rt.W, a, b sem.Ver, full bool) (class string) {
 	}
 	checkLatest("Ver.Latest", a.Latest(b), nil, a, b)
 	as, bs := a.String(), b.String()
-	if len(as) > 1000 || len(bs) > 1000 {
+	if sem.MaxInputLength != 0 && (len(as)+1 > sem.MaxInputLength || len(bs)+1 > sem.MaxInputLength) {
 		return class
 	}
 	at, bt := "v"+as, "v"+bs
@@ -383,6 +383,62 @@ func runC06(c *rt.Ctx) {
 	})
 	c.Require("core", 10000)
 
+	// structured cores: every bit length in every position; the versions differ by one in a higher
+	// field while the lower fields are large on the smaller side (carries between packed fields, sign
+	// tricks and truncations of any width show up here)
+	c.Parallel("cores-by-bit-length", 0, func(w *rt.W) {
+		field := func(bits int) uint64 {
+			if bits == 0 {
+				return 0
+			}
+			v := w.Rng.U64()>>uint(64-bits) | 1<<uint(bits-1)
+			switch w.Rng.Intn(4) {
+			case 0:
+				v = 1 << uint(bits-1)
+			case 1:
+				v = 1<<uint(bits-1) | (1<<uint(bits-1) - 1)
+			}
+			return v
+		}
+		n := 0
+		for hb := 0; hb <= 64; hb++ {
+			for lb := 0; lb <= 64; lb++ {
+				n++
+				if n%w.NShards != w.Shard {
+					continue
+				}
+				for rep := 0; rep < 6; rep++ {
+					hi, lo, lo2 := field(hb), field(lb), field(w.Rng.Intn(65))
+					for pos := 0; pos < 2; pos++ { // pos 0: (major, minor), pos 1: (minor, patch)
+						var a, b sem.Ver
+						if hi == ^uint64(0) {
+							continue
+						}
+						if pos == 0 {
+							a, b = sem.Ver{Major: hi, Minor: lo, Patch: lo2}, sem.Ver{Major: hi + 1, Minor: 0, Patch: 0}
+						} else {
+							a, b = sem.Ver{Major: 7, Minor: hi, Patch: lo}, sem.Ver{Major: 7, Minor: hi + 1, Patch: 0}
+						}
+						if rep%2 == 1 {
+							b.Minor, b.Patch = lo2>>1, lo>>1
+							if pos == 1 {
+								b.Minor = hi + 1
+							}
+						}
+						full := rep == 0
+						c06Pair(w, a, b, full)
+						c06Pair(w, b, a, false)
+						a.PreRelease = "rc.1"
+						c06Pair(w, a, b, false)
+						w.NTHash(rt.HashU(a.Major, a.Minor, a.Patch, b.Major, b.Minor, b.Patch))
+					}
+				}
+				w.ClassN("core-bit-length-combination", 1)
+			}
+		}
+	})
+	c.Require("core-bit-length-combination", 4225)
+
 	// the specification's own chain
 	c.Serial("spec-chain", func(w *rt.W) {
 		chain := []string{"alpha", "alpha.1", "alpha.beta", "beta", "beta.2", "beta.11", "rc.1", ""}
@@ -424,6 +480,42 @@ func runC06(c *rt.Ctx) {
 			}
 		}
 	})
+	// texts longer than the default input limit, with the limit raised or disabled: the deciding
+	// difference lies beyond byte 1024 of the version text
+	oldLimit := sem.MaxInputLength
+	for _, limit := range []int{0, 5000} {
+		sem.MaxInputLength = limit
+		c.Parallel(fmt.Sprintf("long-texts-%d", limit), 0, func(w *rt.W) {
+			for k := 0; k < 3000/w.NShards; k++ {
+				var ids []string
+				for n := 0; n < 1030+w.Rng.Intn(400); {
+					id := genPreIdent(w.Rng)
+					ids = append(ids, id)
+					n += len(id) + 1
+				}
+				common := strings.Join(ids, ".")
+				ta, tb := genPreIdent(w.Rng), genPreIdent(w.Rng)
+				pa, pb := common+"."+ta, common+"."+tb
+				switch k % 4 {
+				case 1:
+					pb = common // a longer list above its own prefix
+				case 2:
+					pb = pa + "." + tb
+				}
+				if len(pa) > 4900 || len(pb) > 4900 {
+					continue
+				}
+				a := sem.Ver{Major: 1, PreRelease: pa}
+				b := sem.Ver{Major: 1, PreRelease: pb, Build: builds[k%4]}
+				cl := c06Pair(w, a, b, true)
+				c06Pair(w, b, a, true)
+				w.ClassN("long-text-"+cl, 1)
+				w.ClassN("long-text-pair", 1)
+			}
+		})
+	}
+	sem.MaxInputLength = oldLimit
+	c.Require("long-text-pair", 2000)
 	for _, cl := range []string{"numeric-vs-numeric-different-digit-count", "numeric-vs-numeric-same-digit-count", "numeric-vs-alphanumeric", "alphanumeric-vs-alphanumeric", "identifier-list-is-prefix-of-other", "release-vs-prerelease", "equal", "excluded"} {
 		c.Require(cl, 100)
 	}
